@@ -35,6 +35,7 @@ structure Sim where
   cache : List (Nat × List Nat) := []  -- aggregator: round ↦ distinct signers (valid chain only)
   reshared : Bool := false
   aggs : Nat := 0                  -- aggregations during the current op
+  fired : Nat := 0                 -- goroutines of the node woken by the clock during the current op
   oT : List String := []
   oA : List String := []
   oE : List (Nat × Int) := []
@@ -134,23 +135,28 @@ def tickInfo (cfg : Cfg) (t : Int) : RoundInfo := ⟨currentRoundZ t cfg.period 
 def dueSleeper (l : List Sleeper) (clock : Int) : Option Nat :=
   l.findIdx? (fun sl => decide (sl.wake ≤ clock))
 
-def Sim.fireSleepers : Nat → Sim → Nat → Sim × Nat
-  | 0, s, k => (s, k)
-  | fuel + 1, s, k =>
+/-- run the node to quiescence: the run loop drains its channels, catch-up goroutines whose sleep is over
+sign, and so on until nothing is left to do -/
+def Sim.quiesce : Nat → Sim → Sim
+  | 0, s => s.flag "unmodelled"
+  | fuel + 1, s =>
+    let s := s.drain 16
     match dueSleeper s.st.sleepers s.st.clock with
-    | none => (s, k)
+    | none => s
     | some i =>
       let (st', outs) := step s.cfg s.st (.catchupFire i)
-      let s := ({ s with st := st' }).outs outs
-      Sim.fireSleepers fuel (s.drain 16) (k + 1)
+      let s := ({ s with st := st', fired := s.fired + 1 }).outs outs
+      Sim.quiesce fuel s
 
-/-- the ticks the run loop is told to have processed during a burst (`obs`, from the node's own log) are
-admissible iff they are rounds of expiries of this Advance, strictly increasing, starting with the first
-expiry (whose delivery is certain: every channel on the way was empty). -/
-def burstOk (r1 k : Nat) (obs : List Nat) : Bool :=
-  match obs with
-  | [] => false
-  | a :: rest => a == r1 && (obs.zip rest).all (fun p => decide (p.1 < p.2)) && obs.all (fun r => decide (r ≤ r1 + k))
+/-- A burst: one Advance crosses the expiries e1 < e1+p < … < e1+k·p (k ≥ 1). clockwork hands the first one
+to the ticker goroutine for certain (every channel on the way is empty at quiescence); whether a later one
+gets through the 1-slot channels is a race inside the node. The ticks the run loop logged (`obs`) are
+admissible iff they are rounds of expiries of this Advance that the run loop's channel does not skip
+(`startAt`), strictly increasing, and start with the first expiry when that one is not skipped. -/
+def burstOk (r1 k : Nat) (firstOk : Bool) (minRound : Nat) (obs : List Nat) : Bool :=
+  (obs.zip obs.tail).all (fun p => decide (p.1 < p.2)) &&
+  obs.all (fun r => decide (r1 ≤ r) && decide (r ≤ r1 + k) && decide (minRound ≤ r)) &&
+  (!firstOk || obs.head? == some r1)
 
 def Sim.adv (s : Sim) (d : Nat) (obs : Option (List Nat)) : Sim :=
   let s := { s with st := (step s.cfg s.st (.clockAdvance d)).1 }
@@ -169,13 +175,18 @@ def Sim.adv (s : Sim) (d : Nat) (obs : Option (List Nat)) : Sim :=
         let k := ((now - e1).toNat) / s.cfg.period
         let s := { s with tickNext := e1 + ((k + 1) * s.cfg.period : Nat) }
         let r1 := (tickInfo s.cfg e1).round
-        let free := s.running && s.blocked.isNone && !s.gateArmed && !(s.startAt > e1)
-        if k ≥ 1 && free then
-          -- burst with a free run loop: which of the later expiries get through the 1-slot channels is a
-          -- race inside the node; the processed ticks are taken from the observation when admissible
+        if k ≥ 1 && s.running && !(s.blocked.isSome && s.slot.isSome) then
+          if s.blocked.isSome || s.gateArmed then
+            -- the held run loop leaves the 1-slot channel to whichever later expiry arrives first
+            ((s.deliverTick (tickInfo s.cfg e1)).flag "race", 1)
+          else
+          -- burst with a free run loop: the processed ticks are taken from the observation when admissible
+          let firstOk := !(s.startAt > e1)
+          -- the first expiry the run loop's channel does not skip
+          let skipped := if s.startAt > e1 then ((s.startAt - e1).toNat + s.cfg.period - 1) / s.cfg.period else 0
           match obs with
           | some o =>
-            if burstOk r1 k o then
+            if burstOk r1 k firstOk (r1 + skipped) o then
               let s := o.foldl (fun (s : Sim) r =>
                 ((s.deliverTick (tickInfo s.cfg (e1 + (((r - r1) * s.cfg.period : Nat) : Int)))).drain 16)) s
               (s.flag "burst-observed", 1)
@@ -183,9 +194,10 @@ def Sim.adv (s : Sim) (d : Nat) (obs : Option (List Nat)) : Sim :=
           | none => ((s.deliverTick (tickInfo s.cfg e1)).flag "burst", 1)
         else (s.deliverTick (tickInfo s.cfg e1), 1)
       else (s, 0)
-  let s := s.drain 16
-  let (s, k) := s.fireSleepers 64 0
-  if fired + k ≥ 2 && s.aggs > 0 then s.flag "race" else s
+  let s := ({ s with fired := s.fired + fired }).quiesce 64
+  -- a tick and a catch-up wake-up (or two wake-ups) in one Advance run concurrently: harmless unless one of
+  -- them completes a round, which moves the head the other one reads
+  if s.fired ≥ 2 && s.aggs > 0 then s.flag "race" else s
 
 def Sim.partial (s : Sim) (signer round : Nat) (kind : String) : Sim × String :=
   let lbl : PartialLbl :=
@@ -193,8 +205,21 @@ def Sim.partial (s : Sim) (signer round : Nat) (kind : String) : Sim × String :
   let res := processPartial s.cfg s.st.clock s.st.head lbl
   if res = .accepted then
     let s := { s with st := (step s.cfg s.st (.partialIn lbl)).1 }
-    (((s.aggIn signer round).drain 16), res.show)
+    (((s.aggIn signer round).quiesce 64), res.show)
   else (s, res.show)
+
+/-- "c+K" / "c-K" (relative to the clock's round, 0 before genesis), "h+K" (relative to the head), or absolute -/
+def Sim.roundSpec (s : Sim) (spec : String) : Option Nat :=
+  match spec.toList with
+  | c :: rest =>
+    if (c == 'c' || c == 'h') && !rest.isEmpty then
+      let base : Int := if c == 'c' then (roundAt s.cfg s.st.clock : Nat) else (s.st.head : Nat)
+      let ks := String.ofList (match rest with | '+' :: r => r | r => r)
+      match ks.toInt? with
+      | some k => if base + k < 0 then none else some (base + k).toNat
+      | none => none
+    else spec.toNat?
+  | [] => none
 
 def Sim.aggOp : Nat → Sim → Nat → Nat → List String → Sim × List String
   | 0, s, _, _, acc => (s, acc)
@@ -217,7 +242,7 @@ def Sim.render (s : Sim) (status : String) : String :=
   let base := s!"{status} T={renderL s.oT} A={renderL s.oA} E={renderE s.oE} S={renderL ss} H={s.st.head} C={s.st.clock}"
   if s.flags.isEmpty then base else base ++ " !" ++ ",".intercalate s.flags
 
-def Sim.fresh (s : Sim) : Sim := { s with oT := [], oA := [], oE := [], oS := [], flags := [], aggs := 0 }
+def Sim.fresh (s : Sim) : Sim := { s with oT := [], oA := [], oE := [], oS := [], flags := [], aggs := 0, fired := 0 }
 
 /-- `NewHandler` on the store as it is: new ticker (first tick at the next round time), nothing running -/
 def Sim.newHandler (s : Sim) : Sim :=
@@ -235,7 +260,7 @@ def handlerStep (s0 : Sim) (f : List String) : Sim × String :=
       let tr := match rest with
         | [t] => t.toNat?.getD 0
         | _ => 0
-      let s : Sim := { cfg := ⟨per, 0, cat, false⟩, n := n, thr := thr, transRound := tr, st := init (-lead) 0 }
+      let s : Sim := { cfg := ⟨per, 0, cat, s.cfg.skipAhead⟩, n := n, thr := thr, transRound := tr, st := init (-lead) 0 }
       let s := if thr < 2 then s.flag "unmodelled" else s
       let s := s.newHandler
       (s, s.render "ok")
@@ -248,19 +273,20 @@ def handlerStep (s0 : Sim) (f : List String) : Sim × String :=
     else
       let s := if s.running then s.flag "unmodelled" else s
       let s := { s with running := true, startAt := nextTime s.cfg s.st.clock }
+      let s := s.quiesce 64
       (s, s.render "ok")
   | ["catchup"] =>
     let s := if s.running then s.flag "unmodelled" else s
     let s := { s with running := true, startAt := nextTime s.cfg s.st.clock }
     let s := s.syncReq (nextRound s.cfg s.st.clock)
-    let s := s.drain 16
+    let s := s.quiesce 64
     (s, s.render "ok")
   | ["transition"] =>
     if s.transRound = 0 then bad else
     let s := if s.running then s.flag "unmodelled" else s
     let s := { s with running := true, startAt := timeOf s.cfg s.transRound }
     let s := s.syncReq (s.transRound - 1)
-    let s := s.drain 16
+    let s := s.quiesce 64
     (s, s.render "ok")
   | ["stop"] =>
     if s.blocked.isSome then bad else
@@ -299,15 +325,15 @@ def handlerStep (s0 : Sim) (f : List String) : Sim × String :=
     match s.blocked with
     | some info =>
       let s := ({ s with blocked := none }).procTick info
-      let s := s.drain 16
+      let s := s.quiesce 64
       (s, s.render "ok")
     | none => let s := { s with gateArmed := false }; (s, s.render "idle")
   | ["partial", signer, round, kind] =>
-    match signer.toNat?, round.toNat? with
+    match signer.toNat?, s.roundSpec round with
     | some signer, some round =>
       if signer ≥ s.n || round = 0 then bad else
       let (s, st) := s.partial signer round kind
-      (s, s.render st)
+      (s, s.render s!"{st}:{round}")
     | _, _ => bad
   | ["agg"] =>
     let (s, sts) := Sim.aggOp 16 s 1 (s.st.head + 1) []
